@@ -263,6 +263,18 @@ class Interp(Engine):
                 self.assign(t, x, env)
             return
         if isinstance(target, ast.Subscript):
+            if isinstance(target.value, ast.Subscript):
+                outer = self.eval(target.value.value, env)
+                if isinstance(outer, SeqV) and (outer.items is None or self.is_outer(outer)):
+                    # X[a][b] = v on a list of (small, concrete-length) lists: replace element a by a copy with item b set.
+                    # Assumes the inner list X[a] is not shared with another container (shallow copies are flagged).
+                    if getattr(outer, 'shared_elems', False):
+                        raise Undecided('nested store into a list whose element lists may be shared with a shallow copy')
+                    a = self.eval_index(target.value.slice, env)
+                    b = self.eval_index(target.slice, env)
+                    inner = self.getitem(outer, a)
+                    self.setitem(outer, a, self._replace_item(inner, b, v))
+                    return
             base = self.eval(target.value, env)
             idx = self.eval_index(target.slice, env)
             self.setitem(base, idx, v)
@@ -276,6 +288,15 @@ class Interp(Engine):
                 return
             raise Undecided(f'attribute store on {base!r}')
         raise Undecided(f'assignment target {type(target).__name__}')
+
+    def _replace_item(self, inner, b, v):
+        if isinstance(inner, CaseV):
+            return CaseV([(g, self._replace_item(x, b, v)) for g, x in inner.cases])
+        if isinstance(inner, SeqV) and inner.items is not None and isinstance(b, int) and -len(inner.items) <= b < len(inner.items):
+            items = list(inner.items)
+            items[b] = v
+            return SeqV(items=items, kind=inner.kind, esort='val')
+        raise Undecided(f'nested store into {inner!r}')
 
     def unpack(self, v, n):
         if isinstance(v, tuple):
